@@ -25,9 +25,11 @@ const char *adapter_name = "regp";
 /* ---- recording sink / array source */
 static unsigned char out[1 << 16];
 static size_t outn;
+static long snk_calls, snk_fail_at;     /* emitf: the snk_fail_at-th call of the sink is refused with EIO */
 static ssize_t snk(void *d, const void *b, size_t n)
 {
     (void)d;
+    if (snk_fail_at && ++snk_calls == snk_fail_at) return -EIO;
     if (outn + n > sizeof out) return -ENOMEM;
     memcpy(out + outn, b, n); outn += n;
     return (ssize_t)n;
@@ -142,15 +144,24 @@ void adapter_exec(Ev *ev)
     if (ev_is(ev, "sizeof")) { obs(ev, (long long)sizeof(RPFrame)); return; }
     static RegP p, peer;
     Arr none = { NULL, 0, 0 };
-    if (ev_is(ev, "emit")) {
-        int kind = (int)ev->a[0], tr = (int)ev->a[1], mem16 = (int)ev->a[2];
+    int emitf = ev_is(ev, "emitf");
+    snk_fail_at = 0; snk_calls = 0;
+    if (emitf) {
+        /* emitf failat <emit arguments>: the same emission into a sink that refuses its failat-th call, followed by a plain read
+         * request into a working sink.  Observation: rc1 seq1 rc2 seq2 n1 <the n1 octets the sink accepted during the first> */
+        snk_fail_at = (long)ev->a[0];
+    }
+    if (emitf || ev_is(ev, "emit")) {
+        const long long *A = ev->a + (emitf ? 1 : 0);
+        int NA = ev->na - (emitf ? 1 : 0);
+        int kind = (int)A[0], tr = (int)A[1], mem16 = (int)A[2];
         reset_ledger(); memset(&B, 0, sizeof B);
         outn = 0;
         srcflavour = 0;
         setup(&p, tr, mem16, 4096, &none);
-        p.session.sequence = (uint16_t)ev->a[3];
-        const long long *a = ev->a + 4;
-        int na = ev->na - 4;
+        p.session.sequence = (uint16_t)A[3];
+        const long long *a = A + 4;
+        int na = NA - 4;
         int rc = -9999;
         unsigned char *pl = NULL; size_t npl = 0;
         RPFrame f; memset(&f, 0, sizeof f);
@@ -191,6 +202,17 @@ void adapter_exec(Ev *ev)
                 default: fprintf(stderr, "regp: bad emit kind %d\n", kind); exit(2);
                 }
             }
+        }
+        if (emitf) {
+            size_t n1 = outn;
+            obs(ev, rc < 0 ? -1 : rc); obs(ev, p.session.sequence);
+            snk_fail_at = 0;
+            int rc2 = regp_req_read8(&p, 0, 1);
+            obs(ev, rc2 < 0 ? -1 : rc2); obs(ev, p.session.sequence);
+            obs(ev, (long long)n1);
+            for (size_t i = 0; i < n1; i++) obs(ev, out[i]);
+            if (pl) { if (npl) xfree(pl); else xfree0(pl); }
+            return;
         }
         obs(ev, rc); obs(ev, p.session.sequence);
         for (size_t i = 0; i < outn; i++) obs(ev, out[i]);
